@@ -1,8 +1,61 @@
 (** C06 - Header decoding accepts exactly valid headers and skips unknown fields.
-    Model: Msg/HeaderDecode.v.  Specification: Msg/HeaderSpec.v (ValidHeader), Wire/SpecEnc.v, Names/Spec.v. *)
-From RB Require Import Base.Prelude Msg.HeaderDecode.
+    Model: Msg/HeaderDecode.v (unmarshal_header, unmarshal_dynamic_header, unmarshal_header_fields,
+    unmarshal_header_field, validate_header_fields, collect_header_fields, unmarshal_next_message,
+    bytes_needed_for_current_message), Wire/Decode.v (the raw validator used for unknown fields),
+    Names/Model.v.  Specification: Msg/HeaderSpec.v (ValidHeader), Wire/SpecEnc.v, Names/Spec.v.
+    Examples: Msg/Examples.v. *)
+From RB Require Import Base.Prelude Sig.Types Sig.ParserProofs Wire.Bytes Wire.Align Wire.Value Wire.SpecEnc Wire.Decode
+  Msg.HeaderSpec Msg.HeaderDecode Msg.DecodeSound Msg.DecodeComplete Msg.DecodeTotalH Msg.Round.
+
+(* the decoder returns Ok (h, used) exactly when the first [used] bytes are a spec-valid header that says [h] *)
+Theorem C06_exact : forall bs h used, bytes_ok bs ->
+  (decode_header bs = Ok (h, used) <-> used <= len bs /\ ValidHeader (firstnN used bs) h).
+Proof.
+  intros bs h used Hb. split.
+  - now apply decode_header_sound.
+  - intros [Hu Hv]. now apply decode_header_complete.
+Qed.
+Print Assumptions C06_exact.
+
+(* inserting a field with an unknown code (not 0..9) that carries a valid variant (the array stays well typed
+   and encodable) at any position of a valid header changes neither acceptance nor the decoded header *)
+Theorem C06_unknown_skipped : forall h fs1 fs2 u rest1 rest2,
+  header_fields_ok h (fs1 ++ fs2) -> known (hf_code u) = false -> hf_code u <> 0 ->
+  wt (fields_val (fs1 ++ u :: fs2)) T_FIELDS = true -> encodable (h_be h) 12 0 (fields_val (fs1 ++ u :: fs2)) = true ->
+  decode_header (hdr_bytes h (fs1 ++ fs2) ++ rest1) = Ok (h, len (hdr_bytes h (fs1 ++ fs2)))
+  /\ decode_header (hdr_bytes h (fs1 ++ u :: fs2) ++ rest2) = Ok (h, len (hdr_bytes h (fs1 ++ u :: fs2))).
+Proof. exact unknown_field_skipped. Qed.
+Print Assumptions C06_unknown_skipped.
+
+(* the length announced to the receive loop is header + padding to 8 + body length, within the protocol's limits *)
+Theorem C06_frame : forall be typ flags blen serial hfl rest,
+  1 <= typ <= 4 -> flags < 256 -> blen < 2 ^ 32 -> 0 < serial < 2 ^ 32 -> hfl < 2 ^ 32 ->
+  bytes_needed (fixed_part be typ flags blen serial ++ enc be 4 hfl ++ rest) =
+  if (hfl <=? 2 ^ 26) && (announced_len (16 + hfl) blen <=? 2 ^ 27) then Ok (announced_len (16 + hfl) blen) else Err.
+Proof. exact bytes_needed_spec. Qed.
+Print Assumptions C06_frame.
 
 (* with fewer than 16 bytes buffered the receive loop asks for the 16 bytes that hold all length fields *)
 Theorem C06_frame_short : forall bs, len bs < 16 -> bytes_needed bs = Ok 16.
 Proof. intros bs H. unfold bytes_needed. destruct (N.ltb_spec (len bs) 16); [reflexivity|lia]. Qed.
 Print Assumptions C06_frame_short.
+
+(* a decoded message: the header is followed by zero padding to 8 and by exactly body_len bytes of body *)
+Theorem C06_message : forall bs nfds m, bytes_ok bs -> decode_message bs nfds = Ok m ->
+  exists used, decode_header bs = Ok (dm_hdr m, used) /\ used + padlen 8 used <= len bs
+    /\ slice bs used (padlen 8 used) = zeros (padlen 8 used)
+    /\ dm_nfds m = nfds
+    /\ dm_sig m = match h_signature (dm_hdr m) with Some s => s | None => [] end
+    /\ (h_body_len (dm_hdr m) = 0 -> dm_body m = [])
+    /\ (h_body_len (dm_hdr m) <> 0 ->
+        dm_body m = skipnN (used + padlen 8 used) bs /\ len bs = used + padlen 8 used + h_body_len (dm_hdr m)).
+Proof. exact decode_message_sound. Qed.
+Print Assumptions C06_message.
+
+(* on every byte string the decoders and bytes_needed return Ok or Err: no panic, no undefined behaviour, no
+   exhausted fuel; a header never claims more bytes than there are *)
+Theorem C06_total : forall bs nfds,
+  match decode_header bs with Ok r => snd r <= len bs | Err => True | _ => False end
+  /\ ok_or_err (decode_message bs nfds) /\ ok_or_err (bytes_needed bs).
+Proof. intros bs nfds. split; [apply decode_header_total|]. split; [apply decode_message_total|apply bytes_needed_total]. Qed.
+Print Assumptions C06_total.
